@@ -680,7 +680,7 @@ def run(ctx):
                 'None, bool, int, float, str (incl. YAML look-alikes), lists/tuples (nested), 1-D/2-D ndarrays, dicts; observed: result '
                 'or error class of every operation and the whole store after it. non-trivial = history with a successful write or '
                 'delete at depth >= 2 and a YAML round trip. Behavioural oracle: 4 variants x 3 signals, default and edited configs.')
-    ctx.proof(extra=['props/Prop_Tie_Config.v', 'props/Prop_Tie_Rest.v'])  # translation tie: program regenerated from the source + refinement theorems
+    ctx.proof(extra=['props/Prop_Tie_Config.v', 'props/Prop_Tie_Rest.v', 'props/Prop_Tie_Parab.v'])  # translation tie: program regenerated from the source + refinement theorems
     work = ctx.work
     r = ctx.rng
     cases = corpus() + [rcase(r) for _ in range(300 if ctx.quick() else 5000)]
